@@ -61,6 +61,10 @@ LEVEL_TEXT += (
     "facet selections keep the orientation of their parts; the merge "
     "key of Mesh.__add__ depends on the connectivity (tolerance below "
     "the cell size).")
+LEVEL_TEXT += (
+    " Added in the fourth hunting round (DESIGN.md 9.6): "
+    "the sibling joins '+' and '@' identify common vertices with the "
+    "same kind of key.")
 LEVEL_NOTE = ("Trusted: numpy hstack/unique/intersect1d semantics; "
               "order-preserving vertex compaction keeps the lexicographic "
               "facet order.")
